@@ -5,8 +5,10 @@ import shutil
 import threading
 import vf
 
-VARIANTS = ["p256", "p256-pd1", "p384", "sm2", "ed25519", "eth", "multi23", "multi23-rev", "multi23-mixed"]
-QUICK = ["p256", "p256-pd1", "ed25519", "multi23", "multi23-rev"]
+# key types and script encodings; multi<m><n>: every m in 1..n for n <= 3, keys sorted and (-rev) unsorted in the raw script
+VARIANTS = ["p256", "p256-pd1", "p384", "sm2", "ed25519", "eth", "multi23-mixed"] + \
+           ["multi%d%d%s" % (m, n, r) for n in (2, 3) for m in range(1, n + 1) for r in ("", "-rev")]
+QUICK = ["p256", "p256-pd1", "multi12", "multi13-rev", "multi23", "multi23-rev"]
 
 
 def tmpdir(ctx):
